@@ -406,6 +406,8 @@ FN_FACTS = [("fft2", ".fft2"), ("ifft2", ".ifft2"), ("roll", ".roll"), ("roll_on
 def fn_facts(fn: ast.FunctionDef):
     """-> dict(globals, foreignStores, inplace, decorators, mutableDefaults, earlyReturns)"""
     params = {a.arg for a in fn.args.args + fn.args.kwonlyargs}
+    tensors = {a.arg for a in fn.args.args + fn.args.kwonlyargs
+               if a.arg == "data" or (a.annotation is not None and "Tensor" in ast.unparse(a.annotation))}
     fresh = set()          # names bound to a list built inside the function
     for n in ast.walk(fn):
         if isinstance(n, ast.Assign) and len(n.targets) == 1 and isinstance(n.targets[0], ast.Name):
@@ -444,8 +446,9 @@ def fn_facts(fn: ast.FunctionDef):
         elif isinstance(n, ast.AnnAssign):
             store(n.target)
         elif isinstance(n, ast.AugAssign):
-            if isinstance(n.target, ast.Name) and n.target.id not in fresh:
-                f["inplace"] += 1          # `data += …` / `shift %= …` on a tensor or argument updates it in place
+            if isinstance(n.target, ast.Name):
+                if n.target.id in tensors:
+                    f["inplace"] += 1      # `data += …` on a tensor argument updates the caller's tensor in place
             else:
                 store(n.target)
         elif isinstance(n, ast.Call):
@@ -565,11 +568,11 @@ def scan_call_sites(repo=None):
             for kw in n.keywords:
                 if kw.arg == "dim":
                     continue
-                if kw.arg in ("centered", "normalized", "complex_input") and isinstance(kw.value, ast.Constant) \
-                        and isinstance(kw.value.value, bool):
-                    overrides.append((("centered", "normalized", "complex_input").index(kw.arg), kw.value.value))
-                else:
-                    overrides.append((9, False))
+                if kw.arg in ("centered", "normalized", "complex_input"):
+                    if isinstance(kw.value, ast.Constant) and isinstance(kw.value.value, bool):
+                        overrides.append((("centered", "normalized", "complex_input").index(kw.arg), kw.value.value))
+                elif kw.arg is not None:
+                    overrides.append((9, False))          # a keyword fft2 / ifft2 do not have
             sites.append(dict(file=fi, path=str(p.relative_to(repo)), line=n.lineno, understood=understood, dims=dims,
                               overrides=overrides, text=ast.unparse(n)[:120]))
     sites.sort(key=lambda d: (d["file"], d["line"], d["text"]))
